@@ -535,7 +535,27 @@ struct StreamWorld : World {
         if (!o.live) return;
         AnyState *st = &c.slots[slot];
         lib_free(st, o.p.kind);
-        if (c.residue) c.residue->push_back(Residue{c.run->cur_op, slot, o.p.kind, Bytes((uint8_t *)st, (uint8_t *)st + kind_size(o.p.kind))});
+        if (c.residue) {
+            Bytes left((uint8_t *)st, (uint8_t *)st + kind_size(o.p.kind));
+            c.residue->push_back(Residue{c.run->cur_op, slot, o.p.kind, left});
+            // History independence: the same memory now goes through init (same parameters and material) and free with
+            // nothing in between.  Bytes nobody writes keep their value, bytes that init writes and free wipes come out
+            // as before; a byte that differs was left over from what happened between init and free in the object's
+            // life (message lengths, phase, position in the block): internal state the object held.
+            if (c.record) {
+                lib_init(st, o.p, o.m, false);
+                lib_free(st, o.p.kind);
+                c.run->probe("twin.free_vs_unused_object");
+                if (memcmp(st, left.data(), left.size()) != 0) {
+                    size_t d = 0;
+                    while (d < left.size() && ((uint8_t *)st)[d] == left[d]) ++d;
+                    c.run->violation("C13", "residue_depends_on_history", kind_name[o.p.kind],
+                                     fmt("byte %zu of %zu of the freed object is 0x%02x after this object's history (%zu bytes in, %zu out, phase %d) and 0x%02x after init+free alone",
+                                         d, left.size(), left[d], o.in.size(), o.out.size(), o.phase, ((uint8_t *)st)[d]));
+                    memcpy(st, left.data(), left.size());
+                }
+            }
+        }
         if (midstream && o.phase != 2 && c.record) c.run->fault("obj.free_midstream");
         o.live = false;
         o.gen++;
